@@ -21,6 +21,7 @@ let () =
       | "W" :: t -> G_w.cmd_w t
       | ["TRACE"] -> G_w.trace ()
       | "CRASHAT" :: _ -> out "ok"
+      | "FAILONCE" :: _ -> out "ok"
       | "PRE" :: _ -> out "ok"
       | c :: t -> if not (More.cmd_more c t) then out ("? unknown command " ^ c)
     end
